@@ -26,6 +26,16 @@
 #include <ompl/base/spaces/special/SphereStateSpace.h>
 #include <ompl/base/spaces/special/MobiusStateSpace.h>
 #include <ompl/base/spaces/special/KleinBottleStateSpace.h>
+#include <ompl/base/spaces/OwenStateSpace.h>
+#include <ompl/base/spaces/VanaStateSpace.h>
+#include <ompl/base/spaces/VanaOwenStateSpace.h>
+#include <ompl/base/spaces/SpaceTimeStateSpace.h>
+#include <ompl/base/spaces/EmptyStateSpace.h>
+#include <ompl/base/Constraint.h>
+#include <ompl/base/ConstrainedSpaceInformation.h>
+#include <ompl/base/spaces/constraint/ProjectedStateSpace.h>
+#include <ompl/base/spaces/constraint/AtlasStateSpace.h>
+#include <ompl/base/spaces/constraint/TangentBundleStateSpace.h>
 #include <ompl/util/Console.h>
 #include <cmath>
 #include <cfloat>
@@ -50,6 +60,15 @@ struct Node
     std::vector<double> lo, hi;  // real bounds (RV per dimension; Time, Disc: one entry)
     bool bounded{true};
     bool plain{false};  // the distance is CompoundStateSpace::distance (generic compound, SE2, SE3)
+    // families with laws of their own (everything else is "std"):
+    //   airplane     Owen / Vana / VanaOwen: distance = length of the computed 3-D Dubins path
+    //   spacetime    SpaceTimeStateSpace: infinite distance beyond the speed limit
+    //   constrained  Projected / Atlas / TangentBundle state space over R^3 with the unit sphere as constraint
+    std::string fam{"std"};
+    double vmaxN{1}, vmaxD{1};        // spacetime: vMax = vmaxN / vmaxD
+    double delta{0}, conTol{0};       // constrained: geodesic resolution, constraint tolerance
+    std::string con;                  // constrained: PJ | AT | TB
+    std::shared_ptr<void> keep;       // constrained: the SpaceInformation the space needs
     bool leaf() const
     {
         return sub.empty();
@@ -61,6 +80,26 @@ static double unitOf(const json &d)
     return d.contains("u") ? d["u"][0].get<double>() / d["u"][1].get<double>() : 1.0;
 }
 
+// the constraint of the constrained catalogue entries: the sphere |x| = r in R^3, written as a user would
+class SphereConstraint : public ob::Constraint
+{
+public:
+    explicit SphereConstraint(double r) : ob::Constraint(3, 1), r_(r)
+    {
+    }
+    void function(const Eigen::Ref<const Eigen::VectorXd> &x, Eigen::Ref<Eigen::VectorXd> out) const override
+    {
+        out[0] = x.norm() - r_;
+    }
+    void jacobian(const Eigen::Ref<const Eigen::VectorXd> &x, Eigen::Ref<Eigen::MatrixXd> out) const override
+    {
+        out = x.transpose().normalized();
+    }
+
+private:
+    double r_;
+};
+
 static Node build(const json &d, ob::StateSpacePtr have = nullptr)
 {
     Node nd;
@@ -70,11 +109,13 @@ static Node build(const json &d, ob::StateSpacePtr have = nullptr)
     {
         nd.n = d.value("n", 1);
         nd.unit = unitOf(d);
+        if (!have && d.value("real", std::string()) == "Empty")
+            have = std::make_shared<ob::EmptyStateSpace>();   // dimension 0: nothing to bound
         if (!have)
             have = std::make_shared<ob::RealVectorStateSpace>(nd.n);
         auto *rv = have->as<ob::RealVectorStateSpace>();
         nd.n = (int)rv->getDimension();
-        if (d.contains("lo"))
+        if (d.contains("lo") && nd.n > 0)
         {
             ob::RealVectorBounds b(nd.n);
             b.setLow(d["lo"].get<double>() * nd.unit);
@@ -124,6 +165,66 @@ static Node build(const json &d, ob::StateSpacePtr have = nullptr)
     {
         nd.sub.push_back(build(d["of"]));
         have = std::make_shared<ob::WrapperStateSpace>(nd.sub[0].sp);
+    }
+    else if (k == "SpaceTime")
+    {
+        // SpaceTimeStateSpace(space, vMax, timeWeight): weights (1 - timeWeight, timeWeight); the time component is
+        // created by the class and bounded through setTimeBounds(); updateEpsilon() as its header asks
+        nd.sub.push_back(build(d["sub"][0]));
+        nd.vmaxN = d["v"][0].get<double>();
+        nd.vmaxD = d["v"][1].get<double>();
+        const double tw = d["w"][1][0].get<double>() / d["w"][1][1].get<double>();
+        if (std::fabs(d["w"][0][0].get<double>() / d["w"][0][1].get<double>() + tw - 1.0) > 0)
+            throw std::runtime_error("SpaceTime weights must add up to 1");
+        auto st = std::make_shared<ob::SpaceTimeStateSpace>(nd.sub[0].sp, nd.vmaxN / nd.vmaxD, tw);
+        const json &td = d["sub"][1];
+        Node tn;
+        tn.k = "Time";
+        tn.unit = unitOf(td);
+        tn.sp = st->getSubspace(1);
+        st->setTimeBounds(td["lo"].get<double>() * tn.unit, td["hi"].get<double>() * tn.unit);
+        tn.lo = {st->getTimeComponent()->getMinTimeBound()};
+        tn.hi = {st->getTimeComponent()->getMaxTimeBound()};
+        nd.sub.push_back(tn);
+        st->updateEpsilon();
+        nd.fam = "spacetime";
+        have = st;
+    }
+    else if (k == "Constrained")
+    {
+        // the construction order of demos/constraint/ConstrainedPlanningCommon.h, library defaults for delta / lambda
+        Node amb = build(json{{"k", "RV"}, {"n", 3}, {"lo", -2}, {"hi", 2}});
+        auto con = std::make_shared<SphereConstraint>(1.0);
+        nd.con = d["kind"].get<std::string>();
+        std::shared_ptr<ob::ConstrainedStateSpace> css;
+        std::shared_ptr<ob::ConstrainedSpaceInformation> csi;
+        if (nd.con == "PJ")
+        {
+            css = std::make_shared<ob::ProjectedStateSpace>(amb.sp, con);
+            csi = std::make_shared<ob::ConstrainedSpaceInformation>(css);
+        }
+        else if (nd.con == "AT")
+        {
+            css = std::make_shared<ob::AtlasStateSpace>(amb.sp, con);
+            csi = std::make_shared<ob::ConstrainedSpaceInformation>(css);
+        }
+        else if (nd.con == "TB")
+        {
+            css = std::make_shared<ob::TangentBundleStateSpace>(amb.sp, con);
+            csi = std::make_shared<ob::TangentBundleSpaceInformation>(css);
+        }
+        else
+            throw std::runtime_error("unknown constrained space kind " + nd.con);
+        css->setup();
+        csi->setStateValidityChecker([](const ob::State *) { return true; });
+        csi->setup();
+        nd.k = "Wrap";   // a ConstrainedStateSpace is a WrapperStateSpace: the generic walkers look through it
+        nd.sub.push_back(amb);
+        nd.fam = "constrained";
+        nd.delta = css->getDelta();
+        nd.conTol = con->getTolerance();
+        nd.keep = csi;
+        have = css;
     }
     else if (k == "Comp")
     {
@@ -191,6 +292,34 @@ static Node build(const json &d, ob::StateSpacePtr have = nullptr)
             else
                 have = std::make_shared<ob::ReedsSheppStateSpace>(d.value("rho", 1.0));
             layout = json::array({json{{"k", "RV"}, {"lo", d["lo"]}, {"hi", d["hi"]}}, json{{"k", "SO2"}}});
+        }
+        else if (k == "Owen" || k == "Vana" || k == "VanaOwen")
+        {
+            // R^3 (x SO(2)) resp. R^4 = (x, y, z, pitch) (x SO(2)): the user bounds the position, the class the pitch
+            const double rho = d.value("rho", 1.0), mp = d.value("maxPitch", PI / 6);
+            ob::RealVectorBounds b(3);
+            b.setLow(d["lo"].get<double>());
+            b.setHigh(d["hi"].get<double>());
+            if (k == "Owen")
+            {
+                auto sp = std::make_shared<ob::OwenStateSpace>(rho, mp);
+                sp->setBounds(b);
+                have = sp;
+            }
+            else if (k == "Vana")
+            {
+                auto sp = std::make_shared<ob::VanaStateSpace>(rho, mp);
+                sp->setBounds(b);
+                have = sp;
+            }
+            else
+            {
+                auto sp = std::make_shared<ob::VanaOwenStateSpace>(rho, mp);
+                sp->setBounds(b);
+                have = sp;
+            }
+            layout = json::array({json{{"k", "RV"}}, json{{"k", "SO2"}}});   // bounds read back from the real space
+            nd.fam = "airplane";
         }
         else
             throw std::runtime_error("unknown space kind " + k);
@@ -916,6 +1045,21 @@ static std::vector<Shipped> shipped()
     v.push_back({"CompoundSE3Time",
                  J(R"({"k":"Comp","real":"Compound","sub":[{"k":"Comp","real":"SE3","sub":[{"k":"RV","n":3,"lo":0,"hi":1,"u":[1,1]},{"k":"SO3"}],"w":[[1,1],[1,1]]},{"k":"Time","lo":0,"hi":2,"u":[1,1]}],"w":[[1,2],[3,1]]})"),
                  true, true, false});
+    // 3-D Dubins airplane spaces: distance = length of the computed path (no symmetry, no triangle inequality claimed)
+    v.push_back({"Owen", J(R"({"k":"Owen","rho":1.0,"lo":-3,"hi":3})"), false, true, false});
+    v.push_back({"Vana", J(R"({"k":"Vana","rho":1.0,"lo":-3,"hi":3})"), false, true, false});
+    v.push_back({"VanaOwen", J(R"({"k":"VanaOwen","rho":1.0,"lo":-3,"hi":3})"), false, true, false});
+    // space-time: weighted compound of a space and time, infinite distance beyond the speed limit, infinite extent
+    v.push_back({"SpaceTime", J(R"({"k":"SpaceTime","sub":[{"k":"RV","n":2,"lo":-2,"hi":2,"u":[1,1]},{"k":"Time","lo":0,"hi":4,"u":[1,1]}],"w":[[1,2],[1,2]],"v":[1,1]})"),
+                 true, false, false});
+    v.push_back({"SpaceTimeSE2", J(R"({"k":"SpaceTime","sub":[{"k":"Comp","real":"SE2","sub":[{"k":"RV","n":2,"lo":-2,"hi":2,"u":[1,1]},{"k":"SO2"}],"w":[[1,1],[1,2]]},{"k":"Time","lo":-1,"hi":2,"u":[1,1]}],"w":[[3,4],[1,4]],"v":[2,1]})"),
+                 true, false, false});
+    // dimension 0
+    v.push_back({"Empty", J(R"({"k":"RV","n":0,"real":"Empty"})"), true, true, false});
+    // constrained spaces as wrappers of R^3 ([-2,2]^3) with the unit sphere as constraint
+    v.push_back({"ProjectedSphere", J(R"({"k":"Constrained","kind":"PJ"})"), false, true, false});
+    v.push_back({"AtlasSphere", J(R"({"k":"Constrained","kind":"AT"})"), false, true, false});
+    v.push_back({"TangentBundleSphere", J(R"({"k":"Constrained","kind":"TB"})"), false, true, false});
     return v;
 }
 
@@ -1333,6 +1477,9 @@ static long long fx(double d, bool &nonfinite)
 static json spaceEvent(const Shipped &sh, const Node &nd)
 {
     double ext = nd.sp->getMaximumExtent();
+    const bool extInf = !std::isfinite(ext);   // SpaceTimeStateSpace: "maximum extent is infinite"
+    if (extInf)
+        ext = 0;
     // tolerance in micro-units: 2 for the fixed-point rounding of double-precision results;
     // float-precision spaces: float epsilon x extent on top
     long tol = 2;
@@ -1344,8 +1491,8 @@ static json spaceEvent(const Shipped &sh, const Node &nd)
     // the space's own resolution (nano-units): pairs closer than this in every coordinate need not have
     // a positive distance (Dubins / Reeds-Shepp shortcut below 1e-6, quaternion threshold, float sphere)
     long res = 0;
-    if (hasKind(nd, "Dubins") || hasKind(nd, "RS"))
-        res = std::max(res, 2000L);
+    if (hasKind(nd, "Dubins") || hasKind(nd, "RS") || nd.fam == "airplane")
+        res = std::max(res, 2000L);   // the airplane spaces compute both projections with the planar Dubins code
     if (hasKind(nd, "SO3"))
         res = std::max(res, 50000L);
     if (sh.floatPrec)
@@ -1354,14 +1501,50 @@ static json spaceEvent(const Shipped &sh, const Node &nd)
     json ev{{"e", "Space"},          {"name", sh.name},
             {"metric", nd.sp->isMetricSpace()}, {"sym", nd.sp->hasSymmetricDistance()},
             {"ext", vt::tlcInt(std::llround(ext * 1e6))}, {"tol", tol},
-            {"extChecked", sh.extChecked},      {"geo", sh.geo},
+            {"extChecked", sh.extChecked && !extInf},      {"geo", sh.geo},
             {"exempt", nd.sp->isDiscrete() || nd.sp->isHybrid()},
             {"prec", sh.floatPrec ? "float" : "double"}, {"plain", false}, {"w", json::array()},
-            {"res", res}};
-    if (ext * 1e6 * 64 > 2.0e9)
+            {"res", res}, {"fam", nd.fam}, {"extInf", extInf},
+            // family parameters (defaults for the families they do not concern)
+            {"lip", json::array({64, 64})}, {"tol4", 2}, {"vmax", json::array({1, 1})}, {"margin", 0},
+            {"delta", 0}, {"tol0", tol}, {"aliasTol", 0}};
+    if (sh.geo && ext * 1e6 * 64 > 2.0e9)
     {
         fprintf(stderr, "FRAMEWORK: extent of %s too large for 32-bit fixed point laws\n", sh.name.c_str());
         _exit(4);
+    }
+    if (nd.fam == "airplane" && nd.k != "Owen")
+        // Vana / VanaOwen interpolate the horizontal (x, y) and the vertical (s, z) projection of the path each at
+        // fraction t of its own length: both speeds are bounded by the path length L, the curve by sqrt(2) L
+        // (91/64 = 1.42 >= sqrt 2); Owen's helix is traversed at constant speed L (factor 1)
+        ev["lip"] = json::array({91, 64});
+    if (nd.fam == "spacetime")
+    {
+        auto *st = nd.sp->as<ob::SpaceTimeStateSpace>();
+        ev["vmax"] = json::array({(long)nd.vmaxN, (long)nd.vmaxD});
+        // the reachability test carries an epsilon "scaled appropriately" to the time extent (float epsilon x the
+        // next power of ten): observations closer than that to the light cone may fall on either side
+        const double text = st->getTimeComponent()->getMaximumExtent();
+        ev["margin"] = 2 + (long)std::ceil(FLT_EPSILON * 10.0 * std::max(1.0, text) * 1e6);
+        for (unsigned i = 0; i < 2; ++i)
+        {
+            const double w = st->getSubspaceWeight(i);
+            long num = std::lround(w * 16);
+            if (w <= 0 || std::fabs(num / 16.0 - w) > 0)
+            {
+                fprintf(stderr, "FRAMEWORK: weight %g of %s is not a small positive dyadic number\n", w, sh.name.c_str());
+                _exit(4);
+            }
+            ev["w"].push_back(json::array({num, 16}));
+        }
+    }
+    if (nd.fam == "constrained")
+    {
+        // the discrete geodesic ends within delta of its target; the tangent-bundle space re-projects the state it
+        // picks (chart point -> manifold, accepted within the constraint tolerance): both are the space's resolution
+        ev["delta"] = vt::tlcInt(std::llround(nd.delta * 1e6));
+        ev["tol0"] = nd.con == "TB" ? tol + (long)std::ceil(TB_REPROJECT * 1e6) : tol;
+        ev["aliasTol"] = nd.con == "PJ" ? 0 : ev["delta"].get<long>();
     }
     const Node *cn = &nd;
     while (cn->k == "Wrap")
@@ -1579,6 +1762,110 @@ static std::vector<Probe> probes(const Node &nd, vt::Rng &r, bool interp)
                          third(c);
                      }});
     return v;
+}
+
+
+// ------------------------------------------------------------------ observations of the new families
+static const double TB_REPROJECT = 2e-4;   // see spaceEvent()
+
+static long long fx4(double d, bool &nonfinite)   // 1e-4 units (chords against path lengths: products stay 32-bit)
+{
+    if (!std::isfinite(d))
+    {
+        nonfinite = true;
+        return 0;
+    }
+    return vt::tlcInt(std::llround(d * 1e4));
+}
+
+// constrained: put a generated state on the constraint manifold (the unit sphere), as a user of the space would
+static void onSphere(ob::State *s)
+{
+    double *x = s->as<ob::WrapperStateSpace::StateType>()->getState()->as<ob::RealVectorStateSpace::StateType>()->values;
+    double n = std::sqrt(x[0] * x[0] + x[1] * x[1] + x[2] * x[2]);
+    if (n < 1e-6)
+    {
+        x[0] = x[1] = 0;
+        x[2] = 1;
+        return;
+    }
+    for (int i = 0; i < 3; ++i)
+        x[i] /= n;
+}
+
+// airplane spaces: the (x, y, z) position lives in the first three values of component 0
+static const double *pos3(const ob::State *s)
+{
+    return s->as<ob::CompoundState>()->components[0]->as<ob::RealVectorStateSpace::StateType>()->values;
+}
+static double euclid3(const ob::State *a, const ob::State *b)
+{
+    const double *p = pos3(a), *q = pos3(b);
+    return std::sqrt((p[0] - q[0]) * (p[0] - q[0]) + (p[1] - q[1]) * (p[1] - q[1]) + (p[2] - q[2]) * (p[2] - q[2]));
+}
+
+// the path API the three airplane classes share by convention (getPath, PathType::length, interpolate with a path)
+struct Airplane
+{
+    std::function<bool(const ob::State *, const ob::State *, double &)> pathLength;   // false: no path found
+    // interpolate(from, to, t, path, out) on the path getPath() returns; false (out untouched) when there is none
+    std::function<bool(const ob::State *, const ob::State *, double, ob::State *)> viaPath;
+    bool hasPitch{false};
+    double pitchLo{0}, pitchHi{0};
+};
+template <class S>
+static Airplane airplaneOf(const Node &nd)
+{
+    Airplane ap;
+    const S *sp = nd.sp->as<S>();
+    ap.pathLength = [sp](const ob::State *a, const ob::State *b, double &len) {
+        auto path = sp->getPath(a, b);
+        if (!path)
+            return false;
+        len = path->length();
+        return true;
+    };
+    ap.viaPath = [sp](const ob::State *a, const ob::State *b, double t, ob::State *out) {
+        auto path = sp->getPath(a, b);
+        if (!path)
+            return false;
+        sp->interpolate(a, b, t, *path, out);
+        return true;
+    };
+    if (nd.sub[0].n == 4)
+    {
+        ap.hasPitch = true;
+        ap.pitchLo = nd.sub[0].lo[3];
+        ap.pitchHi = nd.sub[0].hi[3];
+    }
+    return ap;
+}
+static Airplane airplane(const Node &nd)
+{
+    if (nd.k == "Owen")
+        return airplaneOf<ob::OwenStateSpace>(nd);
+    if (nd.k == "Vana")
+        return airplaneOf<ob::VanaStateSpace>(nd);
+    return airplaneOf<ob::VanaOwenStateSpace>(nd);
+}
+
+// space-time: one ordered pair
+static json stPair(const Node &nd, const ob::State *a, const ob::State *b, const std::string &cls, bool &nf)
+{
+    auto *st = nd.sp->as<ob::SpaceTimeStateSpace>();
+    const double dab = st->distance(a, b), dba = st->distance(b, a), daa = st->distance(a, a), dbb = st->distance(b, b);
+    const bool iab = std::isinf(dab) && dab > 0, iba = std::isinf(dba) && dba > 0;
+    bool nan = false;
+    json ev{{"e", "STPair"}, {"cls", cls}, {"fab", pairFlags(nd, a, b)},
+            {"iab", iab}, {"iba", iba}, {"dab", iab ? 0 : fx(dab, nan)}, {"dba", iba ? 0 : fx(dba, nan)},
+            {"daa", fx(daa, nan)}, {"dbb", fx(dbb, nan)},
+            {"ds", fx(st->distanceSpace(a, b), nan)}, {"dt", fx(st->distanceTime(a, b), nan)},
+            {"ttc", fx(st->timeToCoverDistance(a, b), nan)}, {"ttcr", fx(st->timeToCoverDistance(b, a), nan)},
+            {"neg", dab < 0 || dba < 0 || daa < 0 || dbb < 0},
+            {"eq", st->equalStates(a, b)}, {"pos", dab > 0 && dba > 0}, {"sep", separation(nd, a, b)}};
+    ev["repro"] = "a=" + show(nd, a) + " b=" + show(nd, b);
+    nf = nf || nan;
+    return ev;
 }
 
 static int record(const std::string &out, long n, const std::string &filter, bool interp)
